@@ -229,4 +229,21 @@ theorem C13_source_skeletons_5 :
     Gen.Skel.DB_EnforceHaltLockExpiration = Expected.Skel.DB_EnforceHaltLockExpiration :=
   ⟨rfl, rfl, rfl, rfl, rfl⟩
 
+/-- A replica holds the halt lock only at the position it was granted — facts proved by `decide`
+    about the skeleton of `AcquireRemoteHaltLock` regenerated from db.go: a zero lock id and a node
+    that is itself primary are refused before the primary is asked; the lock is recorded after the
+    primary's grant and the wait for the granted position (`WaitPosExact`) comes before the one
+    successful return; a release is sent to the primary on the failure path. -/
+theorem C13_remote_halt_lock_waits_for_the_granted_position :
+    let ix (sk : List (String × String)) (x : String × String) (d : Nat) := (sk.findIdx? (· == x)).getD d
+    let t := Gen.Skel.DB_AcquireRemoteHaltLock
+    ix t ("if", "lockID == 0") 1000 < ix t ("call", "db.store.Client.AcquireHaltLock") 0 ∧
+    ix t ("return", "return nil, ErrNoHaltPrimary") 1000 < ix t ("call", "db.store.Client.AcquireHaltLock") 0 ∧
+    ix t ("call", "db.store.Client.AcquireHaltLock") 1000 < ix t ("call", "db.remoteHaltLock.Store") 0 ∧
+    ix t ("call", "db.remoteHaltLock.Store") 1000 < ix t ("call", "db.WaitPosExact") 0 ∧
+    ix t ("call", "db.WaitPosExact") 1000 < ix t ("return", "return &other, nil") 0 ∧
+    (t.filter (· == ("return", "return &other, nil"))).length = 1 ∧
+    ix t ("if", "retErr != nil") 1000 < ix t ("call", "db.store.Client.ReleaseHaltLock") 0 := by
+  decide
+
 end LiteFSVerif.C13
